@@ -31,9 +31,32 @@ CHECK_DEADLOCK FALSE
 """
 
 
-def cfg_text(out, seed, cfgs, max_alts, fixed, inv):
-    fx = "\n".join("  %s = %s" % (f, "TRUE" if fixed else "FALSE") for f in FIXES + ["AcceptLocators"])
+PROBES = {"FixMdBounds": "txmetadata-readfrom", "FixVLenZero": "vlen-zeroed", "FixExportEof": "exporttx-lock-leak",
+          "FixTxBinding": "commit-log-entry-retargeted", "FixVLogBound": "vlogid-out-of-range"}
+
+
+def cfg_text(out, seed, cfgs, max_alts, flags, inv):
+    """flags: {constant: bool}; the model of the code as read takes each repair switch from a probe of the real code"""
+    fx = "\n".join("  %s = %s" % (f, "TRUE" if flags[f] else "FALSE") for f in FIXES + ["AcceptLocators"])
     return CFG % (out, seed, ", ".join('"%s"' % c for c in cfgs), max_alts, fx, inv)
+
+
+def probe_flags(chk, binp, wd):
+    """Five minimal reproductions (harness -repro) decide which of the five missing checks the code under test still
+    lacks: the 'code as read' model follows the code (a repaired defect switches its Fix* constant on)."""
+    pd = os.path.join(wd, "probe")
+    os.makedirs(pd)
+    out, _ = vlib.run_harness(binp, ["-repro", "-dir", pd, "-seed", str(chk.seed)], timeout=600)
+    rs = {r["name"]: r for r in json.loads(out)}
+    for n in PROBES.values():
+        if n not in rs:
+            raise MachineryFault("probe %s missing from the harness output" % n)
+    flags = {f: not rs[n]["defect_reproduced"] for f, n in PROBES.items()}
+    flags["AcceptLocators"] = False
+    chk.cov["probes"] = [{"name": r["name"], "change": r["change"][:300], "call": r["call"], "observed": r["observed"][:300],
+                          "defect_present": r["defect_reproduced"]} for r in rs.values()]
+    chk.cov["model_flags_from_probes"] = flags
+    return flags
 
 
 def run(chk, args):
@@ -42,6 +65,15 @@ def run(chk, args):
     binp = vlib.go_build("c09")
     wd = vlib.scratch("C09")
     seed = chk.seed
+    if args.replay:
+        # re-execute one recorded alteration (replays/C09-*.json): store rebuilt from (class, seed, tier), same byte patches
+        out, _ = vlib.run_harness(binp, ["-replay-file", args.replay, "-dir", wd], timeout=600)
+        vlib.absorb(chk, json.loads(out))
+        chk.cov["rule"] = "replay of one recorded alteration on all 9 read paths"
+        return
+
+    asread = probe_flags(chk, binp, wd)
+    repaired = {f: True for f in FIXES + ["AcceptLocators"]}
 
     # ---- TLC: one matrix per configuration (the ASSUME evaluation is single-threaded), in parallel with the
     # state machine of the code as read (invariant expected to fail) and of the repaired design (must hold)
@@ -51,36 +83,33 @@ def run(chk, args):
         os.makedirs(sub)
         out = os.path.join(wd, "matrix_%d.json" % i)
         r = vlib.run_tlc("Corruption", "c.cfg", workdir=sub, workers=1, timeout=600,
-                         files=[("c.cfg", cfg_text(out, seed, [c], 1, False, "TypeOK"))])
+                         files=[("c.cfg", cfg_text(out, seed, [c], 1, asread, "TypeOK"))])
         return ("matrix", c, out, r)
 
     def machine(kind):
         sub = os.path.join(wd, "tlc_" + kind)
         os.makedirs(sub)
-        fixed = kind == "repaired"
+        flags = repaired if kind == "repaired" else asread
         # quick tier: the two-alteration machine runs on the two richest configurations only
         mcfgs = cfgs if thorough else ["v1/plain/multi", "v1/comp/single"]
         r = vlib.run_tlc("Corruption", "c.cfg", workdir=sub, workers=2, timeout=1500,
-                         files=[("c.cfg", cfg_text("", seed, mcfgs, 2, fixed, "TypeOK DetectedOrInvisible"))])
+                         files=[("c.cfg", cfg_text("", seed, mcfgs, 2, flags, "TypeOK DetectedOrInvisible"))])
         return (kind, None, None, r)
 
-    jobs = [lambda i=i: matrix_part(i) for i in range(len(cfgs))] + [lambda: machine("as-read"), lambda: machine("repaired")]
-    with cf.ThreadPoolExecutor(len(jobs)) as ex:
-        results = [f.result() for f in [ex.submit(j) for j in jobs]]
+    # the harness only needs the matrices: the two machine runs keep going while the real stores are exercised
+    ex = cf.ThreadPoolExecutor(len(cfgs) + 2)
+    mfut = [ex.submit(matrix_part, i) for i in range(len(cfgs))]
+    sfut = [ex.submit(machine, "as-read"), ex.submit(machine, "repaired")]
+    try:
+        run_stores(chk, [f.result() for f in mfut], binp, wd, thorough)
+        machines_done(chk, [f.result() for f in sfut])
+    finally:
+        ex.shutdown(wait=True)
 
-    merged = None
-    facts = {}
+
+def machines_done(chk, results):
     for kind, c, out, r in results:
-        if kind == "matrix":
-            vlib.tlc_must_pass(r, "Corruption matrix [%s]" % c)
-            chk.add_tlc(r, "Corruption matrix cfg=%s" % c)
-            m = json.load(open(out))
-            if merged is None:
-                merged = m
-            else:
-                for k in ("singles", "compounds", "pairs"):
-                    merged[k] += m[k]
-        elif kind == "as-read":
+        if kind == "as-read":
             if r.error:
                 raise MachineryFault("Corruption machine (code as read): " + r.error)
             chk.add_tlc(r, "Corruption machine, code as read, MaxAlts=2 (counterexample expected: %s)" % r.violation)
@@ -92,6 +121,22 @@ def run(chk, args):
         else:
             vlib.tlc_must_pass(r, "Corruption machine (repaired design)")
             chk.add_tlc(r, "Corruption machine, all repairs on, MaxAlts=2: DetectedOrInvisible holds")
+
+
+def run_stores(chk, results, binp, wd, thorough):
+    """merge the matrices TLC wrote, print the model's candidates, run the harness on the real stores"""
+    seed = chk.seed
+    merged = None
+    facts = {}
+    for kind, c, out, r in results:
+        vlib.tlc_must_pass(r, "Corruption matrix [%s]" % c)
+        chk.add_tlc(r, "Corruption matrix cfg=%s" % c)
+        m = json.load(open(out))
+        if merged is None:
+            merged = m
+        else:
+            for k in ("singles", "compounds", "pairs"):
+                merged[k] += m[k]
     if not merged or not merged["singles"]:
         raise MachineryFault("TLC wrote no matrix")
     ncells = 9 * (len(merged["singles"]) + len(merged["compounds"]) + len(merged["pairs"]))
@@ -118,7 +163,7 @@ def run(chk, args):
     if not thorough:
         # quick tier: time box per store class; the alterations are executed in a stratified order (round-robin over
         # the (field, class) cells), so a prefix still covers every cell; what was not executed is counted
-        hargs += ["-budget", os.environ.get("VERIF_C09_BUDGET", "40")]
+        hargs += ["-budget", os.environ.get("VERIF_C09_BUDGET", "35")]
     selftest = os.environ.get("VERIF_SELFTEST")
     if selftest:
         hargs += ["-selftest", "ReadTx", "-only", "plain-v1", "-limit", "40"]
